@@ -47,6 +47,7 @@ type sqlSess struct {
 	inTx    bool
 	pending []int64 // keys inserted in the open transaction
 	nCommit int
+	noHold  bool // the statement in flight is not expected to be held by the collector
 }
 
 type sqlEngine struct {
@@ -67,6 +68,7 @@ type sqlEngine struct {
 	nextKey   int64
 	mode      string
 	gcSess      string
+	truncated   bool
 	ticker      *sqlh.Session
 	tick        int
 	nextMarkOld string
@@ -228,6 +230,10 @@ func runSQL(c map[string]any) common.Result {
 		}
 		if f := e.step(st); f != nil {
 			return e.finish(f)
+		}
+		if e.truncated {
+			e.stats["truncated-at-nothing-to-collect"]++
+			break
 		}
 		if f := e.check(amap(st["exp"])); f != nil {
 			return e.finish(f)
@@ -458,6 +464,7 @@ func (e *sqlEngine) step(st map[string]any) common.Result {
 		k := e.nextKey
 		e.nextKey++
 		s.inTx = true
+		s.noHold = false
 		s.pending = append(s.pending, k)
 		r := e.stmt(s, fmt.Sprintf("insert into t values (%d, 'w', '%s')", k, rowText(k)))
 		// an INSERT writes tree nodes (NodeStore.Write: unbracketed) AND table / root values (ValueStore.WriteValue:
@@ -476,13 +483,18 @@ func (e *sqlEngine) step(st map[string]any) common.Result {
 			q = fmt.Sprintf("call dolt_commit('-A', '-m', 'c%d', '--allow-empty')", e.stepNo)
 		}
 		keys := s.pending
+		hadTx := s.inTx
 		s.pending, s.inTx = nil, false
 		r := e.stmt(s, q)
+		s.noHold = !hadTx // a COMMIT with nothing to commit does not touch the store: it returns at once
 		for _, k := range keys {
 			e.committed[k] = true // the statement must succeed (checked when it returns, at the latest in the free run)
 		}
-		if res == "waitfin" {
+		if res == "waitfin" && hadTx {
 			return expectBlock(r, "COMMIT")
+		}
+		if res == "waitfin" {
+			return nil
 		}
 		return expectDone(r, "COMMIT")
 	case "StartGC":
@@ -523,6 +535,27 @@ func (e *sqlEngine) step(st map[string]any) common.Result {
 		if pc == "cancel" || pc == "toFin" {
 			if !e.g.Release("gc") {
 				return e.fail("the collector is not parked", "parked", e.g.At("gc"))
+			}
+			if pc == "cancel" && a == "MarkOld" {
+				// the model's store has nothing new since the last collection; whether the real one has (journal writer,
+				// session writes of the SQL layer) is not described by the model: if the real collection goes on, stop
+				// following the schedule here and let everything run to the end
+				for i := 0; i < 200; i++ {
+					if at := e.g.At("gc"); at != "" && !passThrough[at] {
+						e.truncated = true
+						return nil
+					}
+					select {
+					case err := <-e.gcDone:
+						e.gcDone <- err
+						return nil
+					default:
+					}
+					if at := e.g.At("gc"); at != "" && passThrough[at] {
+						e.g.Release("gc")
+					}
+					time.Sleep(5 * time.Millisecond)
+				}
 			}
 			return nil
 		}
@@ -627,7 +660,7 @@ func (e *sqlEngine) check(exp map[string]any) common.Result {
 		}
 		e.evals++
 		held := strings.HasSuffix(want, ":waitfin") || (strings.HasSuffix(want, ":blocked") && !strings.HasPrefix(want, "read"))
-		if held && exp["gs"] == "Finalizing" && abool(exp["kp"]) && waitDone(s.cur, 0) {
+		if held && !s.noHold && exp["gs"] == "Finalizing" && abool(exp["kp"]) && waitDone(s.cur, 0) {
 			return e.fail("statement of session "+n, "held inside dolt ("+want+")", fmt.Sprint("returned: ", s.cur.err))
 		}
 	}
